@@ -311,6 +311,9 @@ def exact_fit(ctx, rng):
     for i in range(ctx.n(9, 60)):
         kind = ['nestle', 'multinest', 'polychord'][i % 3]
         spec = setup(rng)
+        for g_ in spec['gases']:          # a log-space parameter needs a positive generating value
+            if spec['mix'][g_] <= 0:
+                spec['mix'][g_] = 10 ** rng.uniform(-8, -3)
         model = tmodel.build(spec)
         obs0, arr = make_obs(rng, model)
         obs0 = ArraySpectrum(arr)
